@@ -3,10 +3,13 @@
 (*   Probe(cluster, how, found, repo, b, exc)   behavioural probe of cluster name       *)
 (*      realised through delivery form how ("ctor" | "dict" | "json" | "yaml" | "dump"):   *)
 (*      found: the name resolves; repo: index of the repository whose store received the    *)
-(*      data (0 if not observable); b: the observed behaviour record                          *)
+(*      data (0 if not observable); dpid / mpid: the configured directory in which result       *)
+(*      objects / mementos appeared (0: none); b: the observed behaviour record                *)
+(*   Repo(where, repo)   append_repo / prepend_repo of a repository on the live environment     *)
 EXTENDS ConfigDef
 MInit0(cfg) == [env |-> cfg.env]
 Clauses(st, e) ==
+  IF e.op = "Repo" THEN <<>> ELSE
   LET r == Resolve(st.env, e.cluster) IN
   IF r = <<>> THEN << <<"undefined_cluster_resolves_to_nothing", ~e.found>> >>
   ELSE LET want == Behaviour(r[2]) IN <<
@@ -15,10 +18,12 @@ Clauses(st, e) ==
     <<"first_repository_in_priority_order_wins", e.repo \in {0, r[1]}>>,
     <<"runner_type_honoured", e.b.runs = want.runs>>,
     <<"storage_type_and_readonly_flag_honoured", e.b.stores = want.stores /\ e.b.rejects = want.rejects>>,
-    <<"path_honoured", e.b.datafiles = want.datafiles>>,
-    <<"metadata_path_honoured", e.b.metasep = want.metasep>>,
-    <<"memory_cache_size_honoured", e.b.cached = want.cached>> >>
+    <<"path_honoured", e.b.datafiles = want.datafiles /\ (want.datafiles => e.dpid = r[2].path)>>,
+    <<"metadata_path_honoured", e.b.metasep = want.metasep
+                                /\ (want.datafiles => e.mpid = (IF r[2].meta # 0 THEN r[2].meta ELSE r[2].path))>>,
+    <<"memory_cache_size_honoured", e.destructive => e.b.cached = want.cached>> >>
 COk(st, e)  == \A i \in 1..Len(Clauses(st, e)) : Clauses(st, e)[i][2]
 CWhy(st, e) == {Clauses(st, e)[i][1] : i \in {j \in 1..Len(Clauses(st, e)) : ~Clauses(st, e)[j][2]}}
-CStep(st, e) == st
+CStep(st, e) == IF e.op # "Repo" THEN st
+                ELSE [env |-> IF e.where = "append" THEN Append(st.env, e.repo) ELSE <<e.repo>> \o st.env]
 =============================================================================
